@@ -1,4 +1,4 @@
 SPECIFICATION TraceSpec
 CHECK_DEADLOCK FALSE
 POSTCONDITION TraceAccepted
-INVARIANTS Conforms SizesSumToItems TransitionInRange SizesDifferByOneUnit
+INVARIANTS SizesSumToItems TransitionInRange SizesDifferByOneUnit Conforms
